@@ -46,7 +46,9 @@ def first_assignment_shape(toks, fn, path, implicit):
     """Mechanism predicate of KF-REALPATH-FIRST-ASSIGNMENT: two or more globstars in one regex (the implicit prefix counts)
     and a symlinked directory on the way to the path."""
     ps = R.PathSpec(globstar='GLOBSTAR' in fn or 'GLOBSTARLONG' in fn, globstarlong='GLOBSTARLONG' in fn)
-    n = sum(1 for sg in R.split_segments(toks)[1] if R.seg_is_gstar(sg, ps)) + (1 if implicit else 0)
+    # adjacent recursive segments are one globstar in the regex, and so is the implicit prefix in front of a pattern that opens with one
+    kinds = ([True] if implicit else []) + [R.seg_is_gstar(sg, ps) for sg in R.split_segments(toks)[1]]
+    n = sum(1 for i, g in enumerate(kinds) if g and not (i and kinds[i - 1]))
     if n < 2:
         return False
     parts = path.split('/')
